@@ -49,10 +49,14 @@ type cfgSpec struct {
 	Admin  []string `json:"admin"`
 	Deploy string   `json:"deploy"` // split | prefix | shared
 	Src    string   `json:"src"`    // raw | envfile
+	// Reload: the application is booted with a configuration in which every
+	// list holds a different ("old") token and is then switched to this
+	// configuration by the production reload path (reloadConfig → loadAuth).
+	Reload bool `json:"after_reload_from_old_tokens,omitempty"`
 }
 
 func (c cfgSpec) label() string {
-	return fmt.Sprintf("%s/%s/%s g=%v a=%v b=%v%s adm=%v", c.Alpha, c.Deploy, c.Src, c.Global, c.A, c.B,
+	return fmt.Sprintf("%s/%s/%s%s g=%v a=%v b=%v%s adm=%v", c.Alpha, c.Deploy, c.Src, map[bool]string{true: "/after-reload"}[c.Reload], c.Global, c.A, c.B,
 		func() string {
 			if c.HasC {
 				return fmt.Sprintf(" c=%v", c.C)
@@ -173,6 +177,10 @@ func compileOnly(text string) (config.Compiled, bool, string) {
 	return compiled, true, ""
 }
 
+// oldTokens are the tokens of the configuration a Reload world is booted with
+// (global, route A, route B, admin); none of them is in any later allowlist.
+var oldTokens = []string{"old-global-Tok", "old-alpha-Tok", "old-beta-Tok", "old-admin-Tok"}
+
 // ---- world -----------------------------------------------------------------
 
 var fixedNow = time.Date(2026, 3, 1, 12, 0, 0, 0, time.UTC)
@@ -223,12 +231,26 @@ func (w *world) fresh() error {
 	w.store = queue.NewMemoryStore(queue.WithNowFunc(func() time.Time { return fixedNow }))
 	w.ad = nextAddrs()
 	w.text = dsl(w.spec, w.ad, filepath.Join(w.dir, "tok"))
-	a, err := app.VerifBoot(app.VerifBootOptions{Dir: filepath.Join(w.dir, "boot"), ConfigText: w.text, Store: w.store})
+	bootText := w.text
+	if w.spec.Reload {
+		old := w.spec
+		old.Global, old.A, old.B, old.Admin = []string{oldTokens[0]}, []string{oldTokens[1]}, []string{oldTokens[2]}, []string{oldTokens[3]}
+		bootText = dsl(old, w.ad, filepath.Join(w.dir, "tok"))
+	}
+	a, err := app.VerifBoot(app.VerifBootOptions{Dir: filepath.Join(w.dir, "boot"), ConfigText: bootText, Store: w.store})
 	if err != nil {
 		return fmt.Errorf("boot %s: %w", w.spec.label(), err)
 	}
 	w.app = a
 	w.boots++
+	if w.spec.Reload {
+		if err := os.WriteFile(a.ConfigPath, []byte(w.text), 0o644); err != nil {
+			return err
+		}
+		if !a.Reload("c11") {
+			return fmt.Errorf("reload to %s was refused", w.spec.label())
+		}
+	}
 	if a.Pull == nil || a.Admin == nil {
 		return fmt.Errorf("boot %s: pull/admin handler missing", w.spec.label())
 	}
